@@ -165,6 +165,22 @@ def public_base(t: T):
         return I('range', SUCCESS_RES, PEEK_CHAR, C(48), C(57))
     if n == 'alpha':
         return I('ranges', PEEK_CHAR, C(97), C(122), C(65), C(90))
+    # the other classes of ascii.hpp
+    if n == 'alnum':
+        return I('ranges', PEEK_CHAR, C(97), C(122), C(65), C(90), C(48), C(57))
+    if n == 'xdigit':
+        return I('ranges', PEEK_CHAR, C(48), C(57), C(97), C(102), C(65), C(70))
+    if n == 'blank':
+        return I('one', SUCCESS_RES, PEEK_CHAR, C(32), C(9))
+    if n == 'space':
+        return I('one', SUCCESS_RES, PEEK_CHAR, C(32), C(10), C(13), C(9), C(11), C(12))
+    if n == 'nul':
+        return I('one', SUCCESS_RES, PEEK_CHAR, C(0))
+    if n in ('lower', 'upper', 'odigit', 'print', 'seven'):
+        lo, hi = {'lower': (97, 122), 'upper': (65, 90), 'odigit': (48, 55), 'print': (32, 126), 'seven': (0, 127)}[n]
+        return I('range', SUCCESS_RES, PEEK_CHAR, C(lo), C(hi))
+    if n == 'ellipsis':
+        return I('string', C(46), C(46), C(46))
     if n == 'rep_max':
         return I('rep_min_max', N(0), *a)
     if n == 'if_must':
@@ -611,8 +627,9 @@ class Grammar:
         if sel is not None:
             lines.append("SEL " + " ".join(f"{nid} {k}" for nid, k in sorted(sel.items())))
         mi = getattr(self, 'mi_msgs', None)
-        if mi:
-            lines.append("MI " + " ".join(str(nid) for nid in sorted(mi)))
+        if mi is not None:
+            rof = getattr(self, 'mi_rof', None)
+            lines.append("MI " + " ".join(str(nid) for nid in sorted(mi if rof is None else rof)))
         for nid in sorted(self.nodes):
             nd = self.nodes[nid]
             act = self.acts.get(nid, ActSpec())
@@ -773,15 +790,29 @@ class Grammar:
         mi = getattr(self, 'mi_msgs', None)
         if mi is not None:
             # C05 (oracle-only part): a must_if< errs, ctl > control; `errs::message< R >` for the rules in mi
-            o.append("struct errs { template< typename > static constexpr const char* message = nullptr; };")
+            rof = getattr(self, 'mi_rof', None)
+            if rof is None:
+                # message-only Errors class: a rule raises on failure iff it has a message
+                o.append("struct errs { template< typename > static constexpr const char* message = nullptr; };")
+                rof_set = set(mi)
+            else:
+                # Errors class with an explicit raise_on_failure< Rule > table (documented opt-in / opt-out), independent of the messages
+                o.append("struct errs { template< typename > static constexpr const char* message = nullptr; template< typename > static constexpr bool raise_on_failure = false; };")
+                rof_set = set(rof)
+                for nid in sorted(rof_set):
+                    o.append(f'template<> inline constexpr bool errs::raise_on_failure< {self.nodes[nid].cpp} > = true;')
             for nid, msg in sorted(mi.items()):
                 o.append(f'template<> inline constexpr const char* errs::message< {self.nodes[nid].cpp} > = "{msg}";')
+            # what the generator decided, independent of the library's own trait: does the failure hook of R raise?
+            o.append("template< typename > inline constexpr bool vrof = false;")
+            for nid in sorted(rof_set):
+                o.append(f"template<> inline constexpr bool vrof< {self.nodes[nid].cpp} > = true;")
             # the must_if control; its failure hook raises for rules that have a message (without calling ctl< R >::failure
             # or ctl< R >::raise), so the entry into the hook and the raise are logged here
             o.append("template< typename R > struct ctl_mi : tao::pegtl::must_if< errs, ctl, false >::template control< R > {")
             o.append("  using mi_base = typename tao::pegtl::must_if< errs, ctl, false >::template control< R >;")
             o.append("  template< typename In, typename... St > static void failure( const In& in, St&&... st ) {")
-            o.append("    if constexpr( tao::pegtl::internal::raise_on_failure< errs, R > ) { vh::ev_m< 0 >( \"fa\", vh::vid< tag, R >, in ); vh::ev_m< 0 >( \"ra\", vh::vid< tag, R >, in ); }")
+            o.append("    if constexpr( vrof< R > ) { vh::ev_m< 0 >( \"fa\", vh::vid< tag, R >, in ); if constexpr( errs::template message< R > != nullptr ) { vh::ev_m< 0 >( \"ra\", vh::vid< tag, R >, in ); } }")
             o.append("    mi_base::failure( in, st... ); }")
             o.append("  template< typename In, typename... St > [[noreturn]] static void raise( const In& in, St&&... st ) {")
             o.append("    if constexpr( errs::template message< R > != nullptr ) { vh::ev_m< 0 >( \"ra\", vh::vid< tag, R >, in ); }")
@@ -835,6 +866,7 @@ def grammar_to_json(g: Grammar):
             'fams': {str(f): {str(k): vars(v) for k, v in m.items()} for f, m in g.fams.items()},
             'messages': {str(k): v for k, v in g.messages.items()},
             'mi_msgs': ({str(k): v for k, v in g.mi_msgs.items()} if getattr(g, 'mi_msgs', None) is not None else None),
+            'mi_rof': (sorted(g.mi_rof) if getattr(g, 'mi_rof', None) is not None else None),
             'sel': ({str(k): v for k, v in g.sel.items()} if getattr(g, 'sel', None) is not None else None)}
 
 
@@ -853,4 +885,6 @@ def grammar_from_json(d) -> Grammar:
         g.sel = {int(k): v for k, v in d['sel'].items()}
     if d.get('mi_msgs') is not None:
         g.mi_msgs = {int(k): v for k, v in d['mi_msgs'].items()}
+    if d.get('mi_rof') is not None:
+        g.mi_rof = set(int(k) for k in d['mi_rof'])
     return g
